@@ -139,7 +139,9 @@ def do_replay(prop, ob, rep):
     schema = ob.get("replay_schema")
     if schema:
         try:
-            r = native("replay/run.py", {"schema": schema, "model": ob.get("model"), "extra": ob.get("replay_extra", {}), "obligation": ob["id"], "detail": ob.get("detail")})
+            # a replay is a short script; a replay that does not return (a seeded deadlock, an input that
+            # makes the library hang) is cut off and recorded, the violation is still reported
+            r = native("replay/run.py", {"schema": schema, "model": ob.get("model"), "extra": ob.get("replay_extra", {}), "obligation": ob["id"], "detail": ob.get("detail")}, timeout=float(os.environ.get("VERIF_REPLAY_TIMEOUT_S", 120)))
             out["native"] = r
             witness = r.get("witness")
             failing = r.get("failing")
